@@ -39,7 +39,7 @@ Theorem x_walker_shape_ok :
    "lettarget=if!empty_path(path){target_base.join(path)}else{target_base.clone()};";
    "letft=FileType::from(meta.file_type());"])%string /\
   x_walker_source_prelude = (["letsourcedir=source.components().next_back().ok_or(XcpError::InvalidSource(""Failedtofindsourcedirectoryname.""))?;";
-   "lettarget_base=ifdest.exists()&&dest.is_dir()&&!config.no_target_directory{dest.join(sourcedir)}else{dest.to_path_buf()};";
+   "lettarget_base=ifdest.exists()&&dest.is_dir()&&!config.no_target_directory&&sourcedir!=Component::ParentDir{dest.join(sourcedir)}else{dest.to_path_buf()};";
    "letgitignore=parse_ignore(&source,config)?;"])%string.
 Proof. repeat split; reflexivity. Qed.
 
